@@ -97,6 +97,20 @@ def step (st : St) (op implObs : String) : St × String × List String × List S
     let had := (st.cache.heap.find? (·.key = k)).map (·.value)
     let log1 := st.log ++ loadOf st.cache (.get e (.ok zeros))
     let (c1, _) := get st.cache e (.ok zeros)
+    if k = e then
+      -- both readers want the same block: reader 2 finds the very item reader 1 holds
+      match had with
+      | some v =>
+        let (c2, _) := get c1 k (.ok [0xEE])
+        ({ st with cache := c2, log := log1 }, "val:" ++ hex v ++ " " ++ stateStr c2, stateViol st.cache.maxSize implObs, ["branch:same-block-hit"])
+      | none =>
+        if c1.heap.any (·.key = k) then
+          let (c2, _) := get c1 k (.ok [0xEE])
+          ({ st with cache := c2, log := log1 }, "val:" ++ hex zeros ++ " " ++ stateStr c2, stateViol st.cache.maxSize implObs, ["branch:same-block-loaded-by-other", "nontrivial"])
+        else
+          -- larger than the whole cache: not kept, but reader 1 holds the loaded item and gets its bytes
+          ({ st with cache := c1, log := log1 }, "val:" ++ hex zeros ++ " " ++ stateStr c1, stateViol st.cache.maxSize implObs, ["branch:same-block-too-big", "nontrivial"])
+    else
     match had with
     | some v =>
       if c1.heap.any (·.key = k) then
